@@ -136,6 +136,7 @@ def merge_and_report(args, mod, frags, wall):
         "exhaustive": bool(getattr(mod, "EXHAUSTIVE", False)),
         "exhaustive_parts": exh,
         "shards": len(frags),
+        "shard_wall_s": sorted(round(f.get("wall_s", 0), 1) for f in frags),
         "excluded_known_finding_cases": excluded_known,
         "excluded_after_first_report": excluded_found,
         "known_findings_reported": known_lines,
